@@ -312,6 +312,9 @@ M("esc2-next-unguarded", "C06", EX, "            if isinstance(unwrapped, FrameI
 M("esc2-iterate-any", "C06", EX, "            if isinstance(unwrapped, collections.abc.Sequence):\n                rev_items = reversed(unwrapped)", "            if isinstance(unwrapped, collections.abc.Iterable):\n                rev_items = reversed(list(unwrapped))", "ESC-2", accept_analysis_error=True)
 M("esc3-aclose-deleted", "C06", GL, "    try:\n        # Clean up the asyncgen so it doesn't confuse any finalization hooks\n        agen.aclose().send(None)  # type: ignore\n    except (StopIteration, StopAsyncIteration):\n        pass\n", "", "ESC-3")
 M("esc3-coro-close-deleted", "C06", GL, "    coro_wrapper_type = type(coro.__await__())\n    coro.close()\n", "    coro_wrapper_type = type(coro.__await__())\n", "ESC-3")
+M("asend1-memo-by-id", "C03", GL, "        for referent in gc.get_referents(aw):\n            if hasattr(referent, \"ag_frame\"):  # pragma: no branch\n                return referent\n",
+  "        if id(aw) in _agen_memo:\n            return _agen_memo[id(aw)]\n        for referent in gc.get_referents(aw):\n            if hasattr(referent, \"ag_frame\"):  # pragma: no branch\n                _agen_memo[id(aw)] = referent\n                return referent\n",
+  ["IDKEY-1"], accept_analysis_error=True, extra=[("glue_lock = threading.Lock()\n", "glue_lock = threading.Lock()\n_agen_memo: dict = {}\n")])
 M("esc3-asend-close-deleted", "C06", GL, "    asend_coro.close()\n", "", "ESC-3")
 M("null1-no-handler", "C06", L311, "                    try:\n                        # Read the PyObject* from memory and take a reference to it,\n                        # in one atomic operation\n                        obj = stack_ptr[i]\n                    except ValueError:\n                        # ctypes raises this if a PyObject* is NULL. We'll record\n                        # those as None.\n                        obj = None\n",
   "                    obj = stack_ptr[i]\n", "NULL-1")
